@@ -132,9 +132,10 @@ def check (c):
         dH = np.linalg.norm (Hc - H) / np.linalg.norm (H)
         judge ('E.' + kind, dE, 0.01, 'E at %s (%.2f segments from the nearest conductor) deviates %.3g from the field of the solved currents' % (np.round (x, 4), nfref.min_distance (m, x), dE), key = 'near-E')
         judge ('H.' + kind, dH, 0.01, 'H at %s (%.2f segments from the nearest conductor) deviates %.3g from the field of the solved currents' % (np.round (x, 4), nfref.min_distance (m, x), dH), key = 'near-H')
-    # ---- far shells
+    # ---- far shells: the near field converges to the reported far field (deviation ~ 1 / r)
     size = max (np.linalg.norm (np.asarray (p.point, float)) for p in m.pulses) / lam
     if size <= 0.75:
+        gmax = np.asarray (observe.pattern (m).gain) [..., 2].max ()
         for j in range (2):
             u = np.asarray (nf ['dirs'][4 + j], float)
             u /= np.linalg.norm (u)
@@ -143,36 +144,42 @@ def check (c):
                 if u [2] < 0.1:
                     u [2] = 0.1
                     u /= np.linalg.norm (u)
-            r  = nf ['far'][j] * lam
-            x  = u * r
             th = np.degrees (np.arccos (u [2]))
             ph = np.degrees (np.arctan2 (u [1], u [0]))
             P  = pwr if pwr is not None else float (m.power)
-            common.guarded (lambda: m.compute_near_field (list (x), [1.0, 1.0, 1.0], [1, 1, 1], pwr = P), 'compute_near_field')
-            Ec, Hc = np.asarray (m.e_field [0]), np.asarray (m.h_field [0])
-            common.guarded (lambda: m.compute_far_field (MM.Angle (th, 1.0, 1), MM.Angle (ph, 1.0, 1), pwr = P, dist = r), 'compute_far_field')
-            et = complex (np.asarray (m.far_field.e_theta).ravel () [0]) * np.exp (-1j * m.w * r)
-            ep = complex (np.asarray (m.far_field.e_phi).ravel () [0]) * np.exp (-1j * m.w * r)
             rh, tv, pv = ffref.unit_vectors (th, ph)
-            mag = np.sqrt (abs (et) ** 2 + abs (ep) ** 2)
-            # only where the pattern is not in a deep null (the 1/r^2 terms dominate there)
-            g = np.asarray (m.far_field.gain).ravel ()
-            gmax = np.asarray (observe.pattern (m).gain) [..., 2].max ()
-            if g [2] < gmax - 15:
-                continue
-            classes.add ('far')
-            d = np.sqrt (abs (Ec @ tv - et) ** 2 + abs (Ec @ pv - ep) ** 2) / mag
-            # the near field is the field of the piecewise-constant currents, i. e. it converges to the
-            # exact radiation integral; the reported far field places each half-segment moment at the
-            # pulse point (C10). The reference gives the size of that method difference for this direction.
+            # the near field is the field of the piecewise-constant currents, i. e. it converges to the exact
+            # radiation integral; the reported far field places each half-segment moment at the pulse point
+            # (C10). The reference gives the size of that method difference for this direction.
             pt, pp = ffref.far_field (m, np.array (th), np.array (ph), 'point')
             xt, xp = ffref.far_field (m, np.array (th), np.array (ph), 'exact')
-            slack  = np.sqrt (abs (pt - xt) ** 2 + abs (pp - xp) ** 2) / np.sqrt (abs (pt) ** 2 + abs (pp) ** 2)
-            judge ('far-shell.E', d, 0.01 + float (slack), 'near field at %.0f lambda differs %.3g from the reported far field of that direction, power and distance' % (nf ['far'][j], d), key = 'far-shell')
+            slack  = float (np.sqrt (abs (pt - xt) ** 2 + abs (pp - xp) ** 2) / np.sqrt (abs (pt) ** 2 + abs (pp) ** 2))
+            devs = []
+            skip = False
+            for mult in (1.0, 4.0):
+                r  = nf ['far'][j] * mult * lam
+                x  = u * r
+                common.guarded (lambda: m.compute_near_field (list (x), [1.0, 1.0, 1.0], [1, 1, 1], pwr = P), 'compute_near_field')
+                Ec, Hc = np.asarray (m.e_field [0]), np.asarray (m.h_field [0])
+                common.guarded (lambda: m.compute_far_field (MM.Angle (th, 1.0, 1), MM.Angle (ph, 1.0, 1), pwr = P, dist = r), 'compute_far_field')
+                g = np.asarray (m.far_field.gain).ravel ()
+                if g [2] < gmax - 15:
+                    skip = True      # deep in a null of the pattern the 1 / r^2 terms dominate
+                    break
+                et = complex (np.asarray (m.far_field.e_theta).ravel () [0]) * np.exp (-1j * m.w * r)
+                ep = complex (np.asarray (m.far_field.e_phi).ravel () [0]) * np.exp (-1j * m.w * r)
+                mag = np.sqrt (abs (et) ** 2 + abs (ep) ** 2)
+                devs.append (float (np.sqrt (abs (Ec @ tv - et) ** 2 + abs (Ec @ pv - ep) ** 2) / mag))
+            if skip:
+                continue
+            classes.add ('far')
+            rr = nf ['far'][j] * 4
+            judge ('far-shell.converges', devs [1], max (devs [0] / 2, 0.003 + slack), 'near / far mismatch %.4f at %.0f lambda, %.4f at %.0f lambda: does not fall with distance' % (devs [0], nf ['far'][j], devs [1], rr), key = 'far-shell')
+            judge ('far-shell.E', devs [1], 0.01 + slack, 'near field at %.0f lambda differs %.3g from the reported far field of that direction, power and distance' % (rr, devs [1]), key = 'far-shell')
             zw = np.linalg.norm (Ec) / np.linalg.norm (Hc)
-            judge ('far-shell.E/H', abs (zw - 376.73) / 376.73, 0.01, '|E| / |H| = %.2f ohm at %.0f lambda' % (zw, nf ['far'][j]), key = 'far-shell-impedance')
+            judge ('far-shell.E/H', abs (zw - 376.73) / 376.73, 0.01, '|E| / |H| = %.2f ohm at %.0f lambda' % (zw, rr), key = 'far-shell-impedance')
             tr = np.sqrt (abs (Ec @ tv) ** 2 + abs (Ec @ pv) ** 2)
-            judge ('far-shell.radial', abs (Ec @ rh) / tr, 0.02, 'radial E component is %.3g of the transverse one at %.0f lambda' % (abs (Ec @ rh) / tr, nf ['far'][j]), key = 'far-shell-radial')
+            judge ('far-shell.radial', abs (Ec @ rh) / tr, 0.02, 'radial E component is %.3g of the transverse one at %.0f lambda' % (abs (Ec @ rh) / tr, rr), key = 'far-shell-radial')
             trh = np.sqrt (abs (Hc @ tv) ** 2 + abs (Hc @ pv) ** 2)
             judge ('far-shell.radial', abs (Hc @ rh) / trh, 0.02, 'radial H component is %.3g of the transverse one' % (abs (Hc @ rh) / trh), key = 'far-shell-radial')
     if not any (k.startswith ('E.') for k in mon):
